@@ -454,9 +454,14 @@ pub(super) fn bang_operator(p: &mut Parser) -> CompletedMarker {
 pub(super) fn cond_operator(p: &mut Parser) -> CompletedMarker {
     p.start_node(SyntaxKind::CondOperator);
     p.expect(T![!cond]);
+    let mut has_clause = false;
     delimited(p, T!['('], T![')'], T![,], |p| {
         cond_clause(p);
+        has_clause = true;
     });
+    if !has_clause {
+        p.error("expected at least one 'condition : value' clause in !cond");
+    }
     p.finish_node();
     CompletedMarker::Success
 }
